@@ -64,18 +64,17 @@ def run(ctx):
         core.classify(ctx, sig, "%s: secret %s (notAfter %s, SANs %s), declared domains %s, acme client outcome %s -> Sign calls %s, secret written %s, changed %s"
                       % (b["inv"], rr["sec"], rr["exp"], rr["sans"], rr["dom"], rr["sign"], x["o"]["signs"], x["o"]["written"], x["o"]["changed"]), d)
     # part B: the queue follows the cluster
-    design = core.tlc(ctx, "design-acme", "Acme", None, cfgtext=CFG % ("SpecB", 2, 1, "EmitB"), workers=1, timeout=1800)
+    design = core.tlc(ctx, "design-acme", "Acme", None, cfgtext=CFG % ("SpecB", 1, 1, "EmitB"), workers=1, timeout=1800)
     if design["rc"] != 0:
         raise Undecided("history enumeration failed:\n" + design["out"][-2000:])
     hs = behaviours(design["out"])
-    ctx.tlc_stats.append(dict(name="histories-exhaustive", module="Acme", cfg="every history of 2 steps x <=1 ingress change (3 slots x 13 values) x sync kind x leadership",
+    ctx.tlc_stats.append(dict(name="histories-exhaustive", module="Acme", cfg="every history of 1 step x <=1 ingress change (+ a late change after a failed update) (3 slots x 13 values) x sync kind x leadership",
                               generated=design["generated"], distinct=design["distinct"], depth=design["depth"], wall_s=round(design["wall"], 1), violated=None))
-    if q:
-        ctx.rng.shuffle(hs)
-        hs = hs[:1500]
+    ctx.rng.shuffle(hs)
+    hs = hs[:1500 if q else 20000]
     for s in range(1 if q else 6):
         r = core.tlc(ctx, "gen-sim%d" % s, "Acme", None, cfgtext=CFG % ("SpecB", 5, 3, "EmitB"), workers=1, timeout=1800,
-                     simulate="num=%d" % (150 if q else 1200), depth=22, extra=["-seed", str(ctx.seed * 10 + s)])
+                     simulate="num=%d" % (250 if q else 1500), depth=24, extra=["-seed", str(ctx.seed * 10 + s)])
         if r["rc"] != 0:
             raise Undecided("history generation failed:\n" + r["out"][-2000:])
         hs += behaviours(r["out"])
@@ -116,8 +115,8 @@ def run(ctx):
                         bounds="part A: secret {absent, without tls.crt, unparsable, certificate} x notAfter {expired, 10 days inside the 30 day window, 30 s inside, "
                                "30 s outside, 60 days outside} x SANs {a, a+b, a+b+w.sub, *.local, *.local+w.sub} x declared domains {a, b, a+b, a+b+w.sub} x acme "
                                "client outcome {ok, ok with warning, error, certificate only, key only}; part B: 3 ingress slots x (secret s1/s2 x hosts a/b/a+b x "
-                               "cert-signer on/off | absent), batches of <=3 changes, partial / full resync, leader / not leader per step (real leader elector over an "
-                               "in-memory lease), exhaustive for 2 steps x 1 change, simulated for 5 steps"),
+                               "cert-signer / tls-acme annotation / none | absent) x --acme-track-tls-annotation, batches of <=3 changes, partial / full resync, leader / not leader per step (real leader elector over an "
+                               "in-memory lease), exhaustive for 1 step x 1 change, simulated for 5 steps"),
                         assumptions=["the acme client is a stub (hook H4): the ACME protocol itself is not exercised",
                                      "the queue behind the facade records Add/Remove; it does not run the signer",
                                      "acquiring the lease is followed by a full resync, as IngressReconciler.leaderChanged enqueues one"])
